@@ -186,7 +186,12 @@ def run(ch, config, res):
             if wl.flag("refused_first", 1, 6):
                 # an add the factory refuses (see simkit.editor.BAD_DEFS), on a name that is not in use
                 bconds_, bacts_, bmt_ = E.bad_definition(wl, "baddef")
-                rr = E.classify(lambda: (fs.addfilter("never-added", bconds_, bacts_, bmt_), True)[1])
+                bn = names[wl.int("badname", len(names))]
+                if find(bn) != -1 and wl.flag("refused_update", 1, 2):
+                    # ... or an update of an existing filter (same name) that is refused: the filter keeps its content
+                    rr = E.classify(lambda: fs.updatefilter(bn, bn, bconds_, bacts_, bmt_))
+                else:
+                    rr = E.classify(lambda: (fs.addfilter("never-added", bconds_, bacts_, bmt_), True)[1])
                 res.count("refused_builds")
                 if rr[0] == "ok":
                     res.count("ended:unsupported-description-accepted")
@@ -221,9 +226,14 @@ def run(ch, config, res):
                 desc = [None, gen_label(wl, "desc", 1, 14), "", gen_long_desc(wl, "longdesc")][wl.weighted("hasdesc", [1, 4, 1, 2])]
                 if desc and (name_pre.strip() in desc or desc_pre.strip() in desc):
                     desc = desc.replace("#", "h")
-                rc = E.classify(lambda: fs.replacefilter(n, content, None, desc))
-                if rc[0] == "ok" and desc is not None:
-                    model[find(n)].desc = desc
+                # one replace in three also renames - onto a free name or onto a name that is taken (refused: nothing changes)
+                n2 = names[wl.int("name2", len(names))] if wl.flag("rename", 1, 3) else None
+                rc = E.classify(lambda: fs.replacefilter(n, content, n2, desc))
+                if rc[0] == "ok":
+                    if desc is not None:
+                        model[find(n)].desc = desc
+                    if n2 is not None:
+                        model[find(n)].name = n2
             elif op == "disable":
                 E.classify(lambda: fs.disablefilter(n))
                 if find(n) != -1:
